@@ -47,6 +47,8 @@ def record_and_validate(ctx, kinds, scenarios, steps, label, cfg="SnowVM_Trace.c
         # non-trivial: at least one fork was decided (an accept that forced a rejection) or a sync hand-over happened
         if ("accept" in evs and "reject" in evs) or "finishsync" in evs:
             shapes.add(hash(tuple((l["ev"], l.get("res"), len(l.get("cc", [])), len(l.get("nn", []))) for l in lines[1:])))
+        stats["mid_accept_probes"] = stats.get("mid_accept_probes", 0) + sum(len(l.get("midfound", [])) for l in lines)
+        stats["mid_health_probes"] = stats.get("mid_health_probes", 0) + sum(len(l.get("midh", [])) for l in lines)
     ctx.add("evaluations", len(files))
     ctx.add("distinct_nontrivial", len(shapes))
     for k, v in stats.items():
